@@ -16,8 +16,8 @@ def _all(f):
     return True
 
 
-prop("C03", ["take_range", "sort_take", "limit_clause", "flatten_sort", "sort_infer", "lower_transform", "split_order", "sort_names", "dialect_flags", "group_take", "range_sugar"],
-     select={"range_sugar": lambda n: n.split(".", 1)[1] in ("ER1", "RR1", "RR2", "RR3", "RN1", "RT1", "RF1", "TK1", "TK2", "TK3", "EN1") or n.endswith(".safety"), "dialect_flags": lambda n: n.rsplit(".", 1)[1] in ("use_fetch", "limit_for_bare_offset"), "split_order": lambda n: n.split(".", 1)[1] in ("RO1", "RO2", "RO3", "reorder_should_swap.safety", "IC1", "IC2", "IC3") or n.split(".", 1)[1].startswith("SO1.Take.")},
+prop("C03", ["take_range", "sort_take", "limit_clause", "flatten_sort", "sort_infer", "lower_transform", "split_order", "sort_names", "dialect_flags", "group_take", "range_sugar", "pl_fold"],
+     select={"pl_fold": lambda n: n.split(".", 1)[1] in ("PTK1", "PTK2", "PT1", "PS1", "PS2", "PR1", "PO1", "PE1", "PE2", "PX1") or n.endswith(".safety"), "range_sugar": lambda n: n.split(".", 1)[1] in ("ER1", "RR1", "RR2", "RR3", "RN1", "RT1", "RF1", "TK1", "TK2", "TK3", "EN1") or n.endswith(".safety"), "dialect_flags": lambda n: n.rsplit(".", 1)[1] in ("use_fetch", "limit_for_bare_offset"), "split_order": lambda n: n.split(".", 1)[1] in ("RO1", "RO2", "RO3", "reorder_should_swap.safety", "IC1", "IC2", "IC3") or n.split(".", 1)[1].startswith("SO1.Take.")},
      not_covered="alias_last_sorting and CidRedirector::redirect_sorts (how the sorting is re-expressed across cid redirects: folds over PQ with HashMap state); the driver loops of the sort inference (its step and the CTE record are under contract), "
                  "ensure_names for sort columns; the recursion of Flattener::fold_expr itself (the arms are proved against its contract)")
 
@@ -101,7 +101,7 @@ def _c04_split(name):
             or lab in ("SO1.Take.Compute", "SO1.Distinct.Compute", "SO1.DistinctOn.Compute", "SO1.Aggregate.Compute") or lab.endswith(".safety"))
 
 
-prop("C04", ["window_frame", "split_order", "lower_cols", "group_take", "lower_transform", "dialect_flags", "flatten_sort", "range_sugar"], select={"range_sugar": lambda n: n.split(".", 1)[1] in ("ER1", "RR1", "RR2", "RR3", "RT1", "IL1", "IL2", "EN1") or n.split(".", 1)[1] in ("into_int.safety", "into_literal_range.safety", "try_restrict_range.safety", "expands_range.safety"), "flatten_sort": lambda n: n.split(".", 1)[1] in ("FT1", "FT2", "FT3", "FO1", "FO2", "flatten_call_slice.safety"), "dialect_flags": lambda n: n.rsplit(".", 1)[1] == "supports_distinct_on", "split_order": _c04_split, "lower_cols": lambda n: n.split(".", 1)[1] in ("DC5", "DC6") or n.endswith(".safety")},
+prop("C04", ["window_frame", "split_order", "lower_cols", "group_take", "lower_transform", "dialect_flags", "flatten_sort", "range_sugar", "pl_fold"], select={"pl_fold": lambda n: n.split(".", 1)[1] in ("PTK1", "PTK2", "PT1", "PW1", "PR1", "PO1", "PS1", "PE1", "PE2") or n.endswith(".safety"), "range_sugar": lambda n: n.split(".", 1)[1] in ("ER1", "RR1", "RR2", "RR3", "RT1", "IL1", "IL2", "EN1") or n.split(".", 1)[1] in ("into_int.safety", "into_literal_range.safety", "try_restrict_range.safety", "expands_range.safety"), "flatten_sort": lambda n: n.split(".", 1)[1] in ("FT1", "FT2", "FT3", "FO1", "FO2", "flatten_call_slice.safety"), "dialect_flags": lambda n: n.rsplit(".", 1)[1] == "supports_distinct_on", "split_order": _c04_split, "lower_cols": lambda n: n.split(".", 1)[1] in ("DC5", "DC6") or n.endswith(".safety")},
      not_covered="that the Flattener's log entries are the expressions whose columns end up in the window (the recursion of fold_expr is external; its Sort / Group / Window arms and the call it builds are under contract in flatten_sort / window_frame), row-count preservation, the window of the ROW_NUMBER() column")
 claim("C04",
       "PARTIAL. Proved on the real code, for all inputs: the window transform maps expanding / rolling:n / rows / range to exactly the documented "
@@ -161,7 +161,7 @@ claim("C05",
       "translate_cid, the computation of the inferred name, HashMap / HashSet / NameGenerator are shims by contract; the iteration of retain() and "
       "the search of the Select in the CTE pipeline are dropped by the slices.")
 
-prop("C10", ["resolve_guards", "name_lookup", "lineage_except", "frame_decls", "resolver_unwraps", "module_names", "lower_ident"],
+prop("C10", ["resolve_guards", "name_lookup", "lineage_except", "frame_decls", "resolver_unwraps", "module_names", "lower_ident", "pl_fold"],
      select={"lineage_except": lambda n: n.split(".", 1)[1] in ("IC1", "IC2", "LE1", "LE2", "LE3", "SH1", "shadow_one.safety"),
              "resolver_unwraps": lambda n: n.split(".", 1)[1] in ("XA1", "WS1", "exclusion_arg.safety", "wildcard_self.safety")},
      not_covered="NS_INFER declarations (what resolve_ident_fallback infers), insert_frame (which columns a frame declares after select / "
@@ -173,7 +173,7 @@ claim("C10",
       "Module::lookup returns the direct hits PLUS the hits through every redirect, for any number of redirects and whatever the direct lookup found "
       "(LK1, loop invariant LK2) - so a second candidate in another relation in scope is never missed; apply_args_to_closure returns Err whenever a named "
       "argument is not consumed by a named parameter of the callee (AA1-2); fold_function returns Err for more positional arguments than parameters, a "
-      "function value for fewer, and evaluates only a saturated call (FA1-3). a name that can only be inferred is created from exactly one inference template, is unknown with none and an error with several (resolve_ident_fallback's decision, RF1-3). what one path finds in one module (lookup_in, whole function; the recursion into sub-modules goes through the contract of Module::lookup): `p.rest` finds the members `rest` of the declaration p - of a nested module what its own lookup finds, of layered modules what the INNERMOST layer that finds anything finds (loop invariant over the reversed stack: shadowing), of anything else nothing - qualified with p; an undeclared name finds nothing; a single declared name finds itself or its `_self` (name_lookup LI1-6; Ident::pop_front PF1). `select !{..}` and the inference of a column of a wildcard table compare names exactly (lineage_except LE1-3, IC1-2); a newly defined column takes its bare name away from an earlier column that carries it and leaves every other column alone (SH1, per column: the loop over the columns is not under contract); an argument without a frame where a relation is required is an error, and a relation's frame comes into scope as `this` / `that` (resolve_guards GA1-2). what one column of a frame declares: a named column its own name as that column, a star only the `_infer` placeholder of an input that exists in the frame, an unnamed column nothing - every other name untouched (frame_decls FD1-3). in lowering, an identifier that the resolver bound to a node becomes the column recorded for that node, or an error when none is recorded - the name is handed to the database as text only for an identifier without a target (the Ident arm of lower_expr, lower_ident LI1-4); Lowerer::lookup_cid changes nothing, finds a computed node's column or the input's column of that name, and is an error - not a panic - otherwise (LK0-2). NOT proved: that an out-of-frame column has zero candidates (which declarations a frame inserts), relation / "
+      "function value for fewer, and evaluates only a saturated call (FA1-3). a name that can only be inferred is created from exactly one inference template, is unknown with none and an error with several (resolve_ident_fallback's decision, RF1-3). what one path finds in one module (lookup_in, whole function; the recursion into sub-modules goes through the contract of Module::lookup): `p.rest` finds the members `rest` of the declaration p - of a nested module what its own lookup finds, of layered modules what the INNERMOST layer that finds anything finds (loop invariant over the reversed stack: shadowing), of anything else nothing - qualified with p; an undeclared name finds nothing; a single declared name finds itself or its `_self` (name_lookup LI1-6; Ident::pop_front PF1). `select !{..}` and the inference of a column of a wildcard table compare names exactly (lineage_except LE1-3, IC1-2); a newly defined column takes its bare name away from an earlier column that carries it and leaves every other column alone (SH1, per column: the loop over the columns is not under contract); an argument without a frame where a relation is required is an error, and a relation's frame comes into scope as `this` / `that` (resolve_guards GA1-2). what one column of a frame declares: a named column its own name as that column, a star only the `_infer` placeholder of an input that exists in the frame, an unnamed column nothing - every other name untouched (frame_decls FD1-3). in lowering, an identifier that the resolver bound to a node becomes the column recorded for that node, or an error when none is recorded - the name is handed to the database as text only for an identifier without a target (the Ident arm of lower_expr, lower_ident LI1-4); Lowerer::lookup_cid changes nothing, finds a computed node's column or the input's column of that name, and is an error - not a panic - otherwise (LK0-2). the default PL fold, through which the resolver reaches every expression it does not handle itself, hands every sub-expression of a node to the folder - tuple and array items, case conditions and values, s- / f-string items, the name, the positional and the named arguments of a call, the body and the applied arguments of a function, every operand of every transform kind, range bounds, sort keys - so no name escapes resolution inside a nested node (pl_fold PK1 ... PX1, 16 whole functions, loops by invariant over a ghost visit log). NOT proved: that an out-of-frame column has zero candidates (which declarations a frame inserts), relation / "
       "scalar confusion.",
       "HashSet<Ident> is a shim with a ghost set view; in resolve_guards lookup_in is external (it is under contract in name_lookup, where Module::lookup is external: the mutual recursion is cut at the contracts, its termination is not proved); resolve_ident_wildcard, resolve_ident_fallback, ambiguous_error, expr_of_func are "
       "external; the drain loop over named parameters is replaced by its contract (stated in the evidence).")
@@ -199,7 +199,7 @@ def _c16_ids(name):
     return lab in ("IG1", "IG2", "IG3", "SK1") or lab.startswith("gen.") or lab.startswith("skip.") or lab.endswith("IdGenerator::gen.safety") or "skip" in lab
 
 
-prop("C16", ["toposort", "rq_tables", "ids_names", "lower_cols", "rq_shape", "lineage_except", "rq_fold", "flatten_sort", "table_instance"], select={"ids_names": _c16_ids, "flatten_sort": lambda n: n.split(".", 1)[1] in ("FO1", "FO2", "FT1", "FT3", "flatten_other_arm.safety")},
+prop("C16", ["toposort", "rq_tables", "ids_names", "lower_cols", "rq_shape", "lineage_except", "rq_fold", "flatten_sort", "table_instance", "pl_fold"], select={"ids_names": _c16_ids, "flatten_sort": lambda n: n.split(".", 1)[1] in ("FO1", "FO2", "FT1", "FT3", "flatten_other_arm.safety")},
      not_covered="visibility of ids across joins / sub-pipelines (redirect_mappings over node_mapping: HashMap<usize, LoweredTarget>), lower_expr, "
                  "how push_select collects its columns, the rest of create_a_table_instance (which declaration it reads: table_instance TI1); toposort()'s Key->index map and driver loop")
 claim("C16",
@@ -210,7 +210,7 @@ claim("C16",
       "recorded column for an expression lowered before and emits nothing, otherwise appends at most ONE Compute, whose id is the generator's next (fresh) id, and "
       "records the node -> column mapping (lower_cols DC1-4); push_select closes the pipeline with a Select of exactly the ids of the declared columns, in order, "
       "and returns those columns (rq_shape PS1-3); a column merged by `append` keeps referring to the top pipeline's expression and is named by the top, else the bottom "
-      "(AP1-2). the resolver side of what lowering assumes: a named column leaves a star exactly when it is qualified with the local name of the star's input (lineage_except LE3), a column inferred for a wildcard table is declared once per exact name and appended (IC1-2). NOT proved: visibility of "
+      "(AP1-2). the resolver side of what lowering assumes: a named column leaves a star exactly when it is qualified with the local name of the star's input (lineage_except LE3), a column inferred for a wildcard table is declared once per exact name and appended (IC1-2). the PL fold that TableDepsCollector uses to find the tables a declaration refers to visits every sub-expression of every node (pl_fold), so a table referenced only inside a case branch, an s-string or a join condition is still a dependency and is declared earlier. NOT proved: visibility of "
       "every used id at its point of use (cid redirection through hash maps), select arity.",
       "toposort()'s HashMap index / outer loop, lower_table_decl and the Lowerer's node_mapping are not under contract.")
 
@@ -236,7 +236,7 @@ def _safety(name):
 
 
 _ALL_UNITS = ["take_range", "sort_take", "split_order", "window_frame", "dialect_select", "ident_quote", "ids_names", "toposort", "rq_tables",
-              "select_shape", "span_units", "sql_prec", "prql_prec", "literals", "set_ops", "desugar", "resolve_guards", "lex_strings", "limit_clause", "static_eval", "operator_tpl", "rel_names", "lower_cols", "vec_utils", "group_take", "flatten_sort", "star_exclude", "std_arity", "limit_select", "rq_shape", "star_cols", "func_env", "json_lits", "cte_define", "type_meet", "fmt_strings", "concat_ops", "sstring_query", "sstring_cols", "lineage_except", "sort_infer", "setop_pairs", "setops_reach", "tuple_unpack", "resolver_unwraps", "name_lookup", "frame_decls", "select_cols", "lower_transform", "sort_names", "positional_map", "fmt_interp", "datetime_lit", "lex_numbers", "rq_fold", "dialect_flags", "cid_inline", "module_names", "compose_errors", "lex_end_expr", "fmt_names", "header_args", "literal_rows", "tuple_helpers", "pipeline_types", "lower_ident", "sql_templates", "interp_ident", "table_instance", "fmt_width", "span_frame", "range_sugar"]
+              "select_shape", "span_units", "sql_prec", "prql_prec", "literals", "set_ops", "desugar", "resolve_guards", "lex_strings", "limit_clause", "static_eval", "operator_tpl", "rel_names", "lower_cols", "vec_utils", "group_take", "flatten_sort", "star_exclude", "std_arity", "limit_select", "rq_shape", "star_cols", "func_env", "json_lits", "cte_define", "type_meet", "fmt_strings", "concat_ops", "sstring_query", "sstring_cols", "lineage_except", "sort_infer", "setop_pairs", "setops_reach", "tuple_unpack", "resolver_unwraps", "name_lookup", "frame_decls", "select_cols", "lower_transform", "sort_names", "positional_map", "fmt_interp", "datetime_lit", "lex_numbers", "rq_fold", "dialect_flags", "cid_inline", "module_names", "compose_errors", "lex_end_expr", "fmt_names", "header_args", "literal_rows", "tuple_helpers", "pipeline_types", "lower_ident", "sql_templates", "interp_ident", "table_instance", "fmt_width", "span_frame", "range_sugar", "pl_fold"]
 
 
 def _c12_split_order(n):
